@@ -18,7 +18,7 @@ RULE = ("quick: every modelled class/alias of the _TokenizerElement tree (35 typ
         "name/serialize/load/legacy/validity; 8 real ZANJ files; 4 processes with different PYTHONHASHSEED. thorough: additionally the "
         "whole get_all_tokenizers() list (count, names, hash() values, order fingerprint vs. model, 20000 random indices structurally, "
         "legacy count), 4000+3000 sampled tokenizers, 60 ZANJ files. non-trivial = a type with >= 2 instances or a tokenizer "
-        "differing from the default; distinct = distinct type / distinct structural value; later additions: identity before/after use, load twice, the sampler called between two enumerations, a class-hierarchy history in a fresh interpreter (enumerate, define an element class, enumerate, mark it unsupported, enumerate) against an oracle that walks __subclasses__() itself")
+        "differing from the default; distinct = distinct type / distinct structural value; later additions: identity before/after use, load twice, the sampler called between two enumerations, a class-hierarchy history in a fresh interpreter (enumerate, define an element class, enumerate, mark it unsupported, enumerate) against an oracle that walks __subclasses__() itself, tokenizers assembled from an element copied or loaded on its own (name and hashes must tell what == tells)")
 ASSUMPTIONS = ["each is_valid reads at most one field of self (checked by the translator on the source text, else the translator fails)",
                "blake2b / CPython's int hash reduction are external: hash distinctness over the 5,878,656 names is decided only by the "
                "thorough tier's exhaustive test, not by a theorem",
